@@ -530,7 +530,9 @@ psSize_t tls13ParseSupportedVersions(ssl_t *ssl,
     }
     dataLen = *p; p++;
     len--;
-    if (dataLen != len)
+    /* ProtocolVersion is two octets: an odd list length would make the loop
+       below step over the end (len is unsigned) */
+    if (dataLen != len || (dataLen & 1) != 0)
     {
         psTraceErrr("Malformed supported_versions extension\n");
         goto out_decode_error;
